@@ -276,6 +276,32 @@ def run(ctx, stats, have_model=True):
                       {"theorem_or_obligation": "model runner c13d"})
         return
     model_of = dict(zip(idx, mres))
+    dist = {"trees_built (fmt not empty, PlainText ok)": 0, "with 2+ spans": 0, "with 5+ spans": 0, "with an entity reference": 0,
+            "with an attachment (at = -1)": 0, "without txt (nil grapheme container)": 0, "rejected by the range / key checks of toTree": 0,
+            "rejected by the decoder": 0, "preview cut short": 0}
+    for c, doc, dec, pl, pv in todo:
+        if dec.startswith("derr"):
+            dist["rejected by the decoder"] += 1
+        if not dec.startswith("doc:"):
+            continue
+        t, f, e = dec[4:].split(";")
+        if f == "-":
+            continue
+        es = [x.split("/") for x in f.split(",")]
+        if pl.startswith("err"):
+            dist["rejected by the range / key checks of toTree"] += 1
+        if not pl.startswith("ok"):
+            continue
+        dist["trees_built (fmt not empty, PlainText ok)"] += 1
+        dist["with 2+ spans"] += len(es) >= 2
+        dist["with 5+ spans"] += len(es) >= 5
+        dist["with an entity reference"] += any(x[0] == "" for x in es) and e != "-"
+        dist["with an attachment (at = -1)"] += any(x[1] == "-1" for x in es)
+        dist["without txt (nil grapheme container)"] += t == "n"
+        if pv.startswith("ok:") and t != "n":
+            full = "".join(t[1:].split("."))
+            dist["preview cut short"] += len(pv[3:].split(";")[0].replace("-", "")) < len(full)
+    stats["drafty"]["distribution"] = dist
     mism = []
     compared = texts = 0
     model_bad = 0
